@@ -37,6 +37,9 @@ type Task struct {
 	ID     int        `json:"id"`
 	Call   string     `json:"call"`
 	Opts   []string   `json:"opts,omitempty"` // logger | unknownFields | unknownMessages
+	// SharedOpts: the unknown-field / unknown-message option values are built
+	// once per scenario and the same values are passed to every such task
+	SharedOpts bool `json:"shared_opts,omitempty"`
 	In     string     `json:"in,omitempty"`   // medium id, or "result:<task id>" for Encode
 	File   *ModelFile `json:"file,omitempty"` // Encode of a model-built File
 	Arch   string     `json:"arch,omitempty"`
@@ -198,4 +201,14 @@ func hexs(b []byte) string { return hex.EncodeToString(b) }
 func fatalInfra(format string, a ...interface{}) {
 	fmt.Fprintf(os.Stderr, "fitsim: infrastructure error: "+format+"\n", a...)
 	os.Exit(2)
+}
+
+// medium returns the medium with the given id, or nil.
+func (sc *Scenario) medium(id string) *Medium {
+	for i := range sc.Media {
+		if sc.Media[i].ID == id {
+			return &sc.Media[i]
+		}
+	}
+	return nil
 }
